@@ -603,6 +603,9 @@ enum Defect {
     StreamTruncated,
     // proof carrying the whole block inline (not supported by the tracker)
     FullBlockProof,
+    // ... with the genuine header and attestations but a transaction list that leaves out the spend of a watched
+    // outpoint: no unspent-output proof for the watched outpoints, whatever the tracker makes of inline blocks
+    FullBlockProofHidesWatchedSpend,
     // removal only
     RmWrongPrevHeader,
     RmPrevGrandparent,
@@ -634,6 +637,7 @@ impl Defect {
             Defect::StreamOtherBlock => "streamed-other-block",
             Defect::StreamTruncated => "streamed-truncated",
             Defect::FullBlockProof => "inline-full-block-proof",
+            Defect::FullBlockProofHidesWatchedSpend => "inline-full-block-proof-hiding-watched-spend",
             Defect::RmWrongPrevHeader => "wrong-prev-headers-random",
             Defect::RmPrevGrandparent => "wrong-prev-headers-grandparent",
             Defect::RmWrongPrevFilterHeader => "wrong-prev-filter-header",
@@ -645,6 +649,7 @@ impl Defect {
             self,
             Defect::ProofOtherBlock
                 | Defect::ProofMissingWatchedTx
+                | Defect::FullBlockProofHidesWatchedSpend
                 | Defect::ProofWrongFilterHeader
                 | Defect::ProofWrongHeight
                 | Defect::AttMinority
@@ -920,6 +925,7 @@ fn add_defects<L: TL>(h: &Hist<L>, streamed: bool, at_boundary: bool) -> Vec<Def
             if !h.tracker.get_all_forward_watches().1.is_empty() {
                 d.push(Defect::ProofMissingWatchedTx);
                 d.push(Defect::ProofMissingWatchedTx);
+                d.push(Defect::FullBlockProofHidesWatchedSpend);
             }
         }
     }
@@ -935,7 +941,7 @@ fn build_add<L: TL>(h: &mut Hist<L>, rng: &mut Rng, cx: &Ctx, defect: Defect, st
     h.time += 1 + rng.below(600) as u32;
     let time = h.time;
 
-    let must_spend = defect == Defect::ProofMissingWatchedTx;
+    let must_spend = matches!(defect, Defect::ProofMissingWatchedTx | Defect::FullBlockProofHidesWatchedSpend);
     let (txs, spent_watched) = gen_txs(h, rng, newh, must_spend, true);
 
     // header fields
@@ -1009,6 +1015,11 @@ fn build_add<L: TL>(h: &mut Hist<L>, rng: &mut Rng, cx: &Ctx, defect: Defect, st
             match defect {
                 Defect::FullBlockProof =>
                     TxoProof { attestations: atts, proof: ProofType::Block(block.clone()) },
+                Defect::FullBlockProofHidesWatchedSpend => {
+                    let mut b = block.clone();
+                    b.txdata.truncate(1); // the coinbase only; header (and so the block hash) as announced
+                    TxoProof { attestations: atts, proof: ProofType::Block(b) }
+                }
                 Defect::ProofMissingWatchedTx => manual_filter_proof(atts, &block, &[], &[]),
                 Defect::ProofWrongFilterHeader | Defect::ProofWrongHeight =>
                     manual_filter_proof(atts, &block, &txid_w, &fwd),
@@ -1103,6 +1114,7 @@ fn rm_defects<L: TL>(h: &Hist<L>, streamed: bool) -> Vec<Defect> {
             if tip.spent_watched.iter().any(|o| rev.contains(o)) {
                 d.push(Defect::ProofMissingWatchedTx);
                 d.push(Defect::ProofMissingWatchedTx);
+                d.push(Defect::FullBlockProofHidesWatchedSpend);
             }
         }
     }
@@ -1200,6 +1212,11 @@ fn build_remove<L: TL>(
             match defect {
                 Defect::FullBlockProof =>
                     TxoProof { attestations: atts, proof: ProofType::Block(block.clone()) },
+                Defect::FullBlockProofHidesWatchedSpend => {
+                    let mut b = block.clone();
+                    b.txdata.truncate(1); // the coinbase only; header (and so the block hash) as announced
+                    TxoProof { attestations: atts, proof: ProofType::Block(b) }
+                }
                 Defect::ProofMissingWatchedTx => manual_filter_proof(atts, &block, &[], &[]),
                 Defect::ProofWrongFilterHeader | Defect::ProofWrongHeight =>
                     manual_filter_proof(atts, &block, &txid_w, &rev),
@@ -2230,6 +2247,7 @@ fn main() {
         "add.retarget-beyond-x4-easier",
         "add.proof-for-other-block",
         "add.proof-missing-watched-tx",
+        "add.inline-full-block-proof-hiding-watched-spend",
         "add.proof-wrong-filter-header",
         "add.attestation-wrong-height",
         "add.attestations-minority",
